@@ -180,6 +180,7 @@ def check(tree, rep, tier='quick', seed=0):
     from ..core import get_core
     from .. import corerules as R
     R.k25_list_form_inputs(get_core(tree), rep)
+    R.k25b_list_forms_prints_names_whole(get_core(tree), rep)
     R.k28_threshold_lookup_pure(get_core(tree), rep)
     # ---- R17.7 every input / line / mapping object belongs to exactly one form instance
     shared_rule(cat, rep)
